@@ -330,15 +330,50 @@ func (c *c19Cfg) hasMatch(cl c19Call) (match bool, cleanBefore bool) {
 	return false, cleanBefore
 }
 
-func isValidated(res string) bool {
+// isValidated: did this call get past the comparison of the decrypted key with the declared public key?
+// Error texts that are recognised decide it; for a text that is not (a reworded message) the question is
+// answered from what was put in: the passphrase was asked for, the right one was given, and the file holds
+// the declared key.
+func (c *c19Cfg) isValidated(res string, cl c19Call) bool {
 	if !strings.HasPrefix(res, "1:") {
 		return false
+	}
+	switch {
+	case strings.HasPrefix(res[2:], "other:"):
+		return cl.ans == 'r' && c.stored == "1"
 	}
 	switch res[2:] {
 	case "cberr", "keyerr", "unexpected", "invalidkey", "mismatch":
 		return false
 	}
 	return true
+}
+
+// c19Coarse collapses every error class (the model's, or a recognised one of the implementation) into "err":
+// used for the comparison with the model when some message of the implementation was not recognised
+func c19Coarse(s string) string {
+	parts := strings.Split(s, ";")
+	for i, p := range parts {
+		suffix := ""
+		if j := strings.Index(p, " cached="); j >= 0 {
+			p, suffix = p[:j], p[j:]
+		}
+		if k := strings.Index(p, ":"); k >= 0 {
+			cls := p[k+1:]
+			extra := ""
+			if a := strings.Index(cls, "+asked"); a >= 0 {
+				cls, extra = cls[:a], cls[a:]
+			}
+			switch {
+			case cls == "ok", cls == "incorrect", cls == "wrongfilekey":
+			default:
+				cls = "err"
+			}
+			p = p[:k+1] + cls + extra
+		}
+		parts[i] = p + suffix
+	}
+	return strings.Join(parts, ";")
 }
 
 func (c *c19Cfg) historyCase(kind string, hist []c19Call) *h.Case {
@@ -371,7 +406,7 @@ func (c *c19Cfg) historyCase(kind string, hist []c19Call) *h.Case {
 				orc = append(orc, fmt.Sprintf("call %d (%s) on the unlocked identity gives %s but the plain identity gives %s", i+1, cl, res, p))
 			}
 		}
-		if isValidated(res) {
+		if c.isValidated(res, cl) {
 			if c.stored != "1" {
 				orc = append(orc, fmt.Sprintf("call %d (%s) got past the key check (%s) although the key file does not hold the declared key", i+1, cl, res))
 			}
@@ -385,6 +420,11 @@ func (c *c19Cfg) historyCase(kind string, hist []c19Call) *h.Case {
 	}
 	cs.Line = fmt.Sprintf("sshenc %s %d %s", c.stored, c.arity, strings.Join(calls, ";"))
 	cs.Impl = strings.Join(outs, ";") + " cached=" + h.B2s(cached)
+	if strings.Contains(cs.Impl, ":other:") {
+		// an error message this harness does not know: compare outcome classes only (ok / incorrect identity / error)
+		cs.Impl = c19Coarse(cs.Impl)
+		cs.Canon = c19Coarse
+	}
 	cs.Oracle = strings.Join(orc, "; ")
 	cs.Note = c.name
 	return cs
